@@ -6,6 +6,7 @@ import (
 	"fmt"
 	"math"
 	"strconv"
+	"strings"
 	"unicode"
 
 	"github.com/wolimst/lib-secs2-hsms-go/pkg/ast"
@@ -655,6 +656,25 @@ func driverCtor(c *Ctx) {
 				},
 				"duprename": func() ast.ItemNode {
 					return ast.NewListNode(ast.NewUintNode(1, "zz9"), ast.NewIntNode(2, n)).FillVariables(map[string]interface{}{"zz9": n})
+				},
+				// ... within one node: a second variable renamed to the first one's name, for every node kind
+				"dupsame": func() ast.ItemNode {
+					k := len(n) % 5
+					if k == 3 && strings.HasPrefix(n, "0b") {
+						k = 0 // for a binary item "0b..." is a literal, not a name
+					}
+					vals := map[string]interface{}{"zz9": n}
+					switch k {
+					case 0:
+						return ast.NewUintNode(2, n, "zz9").FillVariables(vals)
+					case 1:
+						return ast.NewIntNode(4, 1, n, "zz9").FillVariables(vals)
+					case 2:
+						return ast.NewFloatNode(8, "zz9", n).FillVariables(vals)
+					case 3:
+						return ast.NewBinaryNode(n, 7, "zz9").FillVariables(vals)
+					}
+					return ast.NewBooleanNode(n, "zz9").FillVariables(vals)
 				},
 				"dupinsert": func() ast.ItemNode {
 					return ast.NewListNode("zz9", ast.NewIntNode(2, n)).FillVariables(map[string]interface{}{"zz9": ast.NewFloatNode(4, n)})
